@@ -114,9 +114,12 @@ package mux
 //@   trusted pure classification of an error
 //@   modifies
 //
-// the reply to the caller: exactly one per handled request (channel send on the request's own 1-buffered channel)
+// the reply to the caller: exactly one per handled request (channel send on the request's own 1-buffered channel), and
+// only once the cache is coherent with the store again (#replyaftercache): an operation is complete - visible to the
+// caller and to DoGet's fast path in the caller's goroutine - when it has replied
 //@ func AsyncC.SetR
 //@   trusted channel send; the contract records what was replied
+//@   requires #replyaftercache coh()
 //@   ensures lastR == r && lastErr == err && replies == old(replies) + 1
 //@   modifies lastR, lastErr, replies
 //
